@@ -3,6 +3,7 @@
  *  "aggA": per (Z, E, theta, phi): differential cross sections (polarised and not), barn twins, and their factors. */
 #include "common.h"
 #include "xrayglob.h"
+#include "api.h"
 static void r1(const char *name, double v, xrl_error **e, int *firstp) {
   fprintf(OUT, "%s\"%s\":[%d,", *firstp ? "" : ",", name, *e == NULL); jd(v); fputc(']', OUT); *firstp = 0; xrl_clear_error(e);
 }
@@ -22,6 +23,21 @@ static void aggE(int Z, double E) {
   for (int s = 0; s < 31; s++) { xrl_error *e2 = NULL; double v = CSb_Photo_Partial(Z, s, E, &e2); fprintf(OUT, "%s[%d,", s ? "," : "", e2 == NULL); jd(v); fputc(']', OUT); xrl_clear_error(&e2); }
   fputs("],\"p\":[", OUT);
   for (int s = 0; s < 31; s++) { xrl_error *e2 = NULL; double v = CS_Photo_Partial(Z, s, E, &e2); fprintf(OUT, "%s[%d,", s ? "," : "", e2 == NULL); jd(v); fputc(']', OUT); xrl_clear_error(&e2); }
+  /* every other barn/atom function of the API with arguments (Z, shell or line, E) - found by name in the table generated from the headers -
+   * next to its cm2/g twin: fluorescence shells and lines (jump-ratio and Kissel variants) */
+  fputs("],\"tw\":[", OUT);
+  { static const int SH[] = {-1, 0, 1, 2, 3, 4, 6, 8, 9, 30}; static const int LN[] = {KL3_LINE, KL2_LINE, KM3_LINE, L1M3_LINE, L2M4_LINE, L3M5_LINE, L3N5_LINE, M5N7_LINE, M4N6_LINE, KA_LINE, KB_LINE, LA_LINE, LB_LINE, 0, -2000};
+    int firstt = 1;
+    for (ApiFn *f = API_TABLE; f->name; f++) {
+      if (f->sig != SIG_IID || strncmp(f->name, "CSb_", 4) || !strcmp(f->name, "CSb_Photo_Partial")) continue;
+      char twin[96]; snprintf(twin, sizeof twin, "CS_%s", f->name + 4); ApiFn *g = NULL; for (ApiFn *t = API_TABLE; t->name; t++) if (!strcmp(t->name, twin) && t->sig == SIG_IID) g = t;
+      if (!g) continue;
+      int isline = f->mlo < -100; int nm = isline ? (int)(sizeof LN / sizeof *LN) : (int)(sizeof SH / sizeof *SH);
+      for (int k = 0; k < nm; k++) { int ia[2] = {Z, isline ? LN[k] : SH[k]}; double da[1] = {E}; xrl_error *eb = NULL, *ec = NULL;
+        double b = api_call(f, ia, da, NULL, &eb), c = api_call(g, ia, da, NULL, &ec);
+        fprintf(OUT, "%s{\"n\":\"%s\",\"m\":%d,\"b\":[%d,", firstt ? "" : ",", f->name, ia[1], eb == NULL); jd(b); fprintf(OUT, "],\"c\":[%d,", ec == NULL); jd(c); fputs("]}", OUT); firstt = 0;
+        xrl_clear_error(&eb); xrl_clear_error(&ec); }
+    } }
   fputs("]}\n", OUT);
 }
 static void aggA(int Z, double E, double th, double ph) {
